@@ -11,7 +11,11 @@ record per operation:
   rests what each concrete cursor would still yield (`rest`)
   abs   `absCur` of every concrete cursor equals the `Spec` cursor, `Spec` list = `toList`,
         `Spec.rest` = `rest` (the refinement statement, evaluated)
+  ends  how each cursor's generator would end if drained now (`"stop"` expected)
   inv   `invOk` (executable invariant)
+The answer also carries `hist0`: `runHist` for the first cursor over all events since its creation
+(`y` = what it yielded, `T` = touched values, `ok` = the statement of
+C11_untouched_exactly_once_in_order evaluated on this history).
 Ops: append{v} extend{vs} ia{a,vs} ib{a,vs} rm{v} iter{d:"f"|"r"} next{k} get{i} has{v} len. -/
 open Lean IrVerif.Drive
 namespace IrVerif.Drive.LinkedSet
